@@ -36,6 +36,7 @@ def main():
     ap = argparse.ArgumentParser()
     ap.add_argument('--fixes', action='store_true')
     ap.add_argument('--seeded', action='store_true')
+    ap.add_argument('--benign', action='store_true', help='behaviour-preserving refactorings under benign/<id>/patch.diff: every check must stay silent')
     ap.add_argument('--tier', default='quick')
     ap.add_argument('--only', default=None)
     ap.add_argument('--all-checks', action='store_true', help='run all 17 checks against every mutant (which checks catch which change)')
@@ -50,7 +51,7 @@ def main():
         assert r.returncode == 0, r.stderr
         TARGET['dir'] = wt
         TARGET['env'] = 'PVMON_REPO_SRC=%s/src PVMON_OUT_DIR=%s/out' % (wt, scratch)
-    if not (args.fixes or args.seeded):
+    if not (args.fixes or args.seeded or args.benign):
         args.fixes = args.seeded = True
     assert clean(), '/repo working tree is not clean'
     allids = ['C%02d' % i for i in range(1, 18)]
@@ -98,6 +99,25 @@ def main():
                 ok = meta['property'] in firing
                 results.append({'mutant': name, 'expected': meta['property'], 'caught': ok, 'firing_checks': firing, 'detail': caught.get(meta['property'])})
                 print(('CAUGHT ' if ok else 'MISSED ') + '%s expected %s firing %s' % (name, meta['property'], firing), flush=True)
+        if args.benign:
+            for d in sorted(glob.glob(os.path.join(HERE, 'benign', '*'))):
+                name = os.path.basename(d)
+                if args.only and args.only != name:
+                    continue
+                r = sh('git -C %s apply %s' % (TARGET['dir'], os.path.join(d, 'patch.diff')))
+                if r.returncode != 0:
+                    results.append({'mutant': 'benign/' + name, 'error': r.stderr[-300:], 'caught': True})
+                    sh('git -C %s checkout -- .' % TARGET['dir'])
+                    print('ERROR applying benign', name, r.stderr[-200:])
+                    continue
+                alarms = {}
+                for p in allids:
+                    rc, vio, tail = run_check(p, args.tier, seed=1)
+                    if rc != 0:
+                        alarms[p] = {'exit': rc, 'violations': [v[:300] for v in vio[:3]], 'tail': tail[-300:]}
+                sh('git -C %s checkout -- .' % TARGET['dir'])
+                results.append({'mutant': 'benign/' + name, 'expected': 'silence', 'caught': not alarms, 'false_alarms': alarms})
+                print(('SILENT ' if not alarms else 'FALSE-ALARM ') + 'benign/%s %s' % (name, sorted(alarms)), flush=True)
     finally:
         sh('git -C %s checkout -- .' % TARGET['dir'])
         if scratch:
